@@ -45,7 +45,7 @@ def cli_main() -> None:
     if args.format == "ips":
         exit_code = program.assemble_as_patch(args.input_file, args.output_file, args.mapping, args.copier_header)
     else:
-        exit_code = program.assemble(args.input_file, args.output_file)
+        exit_code = program.assemble(args.input_file, args.output_file, args.mapping)
     sys.exit(exit_code)
 
 
